@@ -19,12 +19,11 @@ G = "minijinja::compiler::codegen::CodeGenerator::"
 M = "minijinja::compiler::meta::"
 AST = "minijinja::compiler::ast::"
 
+# the template-name expressions of extends / include / import were excluded here ("multi-template") until a seeding
+# sub-agent showed what the exclusion hid: the same tracker decides what a macro encloses, so `{% include part %}`
+# inside a macro lost `part` (fix e2743d4).  They are ordinary evaluated fields now.
 EXCLUDED = {
-    ("Import", "expr"): "multi-template: undeclared_variables is documented for single-file templates",
-    ("FromImport", "expr"): "multi-template",
     ("FromImport", "names.0"): "imported names are looked up in the other template, not in the context",
-    ("Extends", "name"): "multi-template",
-    ("Include", "name"): "multi-template",
 }
 
 
